@@ -388,6 +388,62 @@ def run (p : Pool K) (evs : List (Ev K)) : Pool K := evs.foldl step p
 /-- The newest use-keyspace task, if any. -/
 def Pool.latest (p : Pool K) : Option (Task K) := p.tasks.head?
 
+/-! ### which connection a request is handed ← `connection_pool.rs:339-430` (`connection_for_shard`,
+`random_connection`, `connection_for_shard_helper`, `choose_random_connection_from_slice`, `with_connections`)
+
+Requests see only `shared_conns` (= `conns`, see above): `with_connections` fails while the pool is `Initializing`
+or `Broken` (no published connection). Random choices are explicit arguments. -/
+
+/-- `choose_random_connection_from_slice` (`random_range(0..len)` as `r % len`). -/
+def chooseFrom (l : List Nat) (r : Nat) : Option Nat :=
+  if l.isEmpty then none else l[r % l.length]?
+
+/-- The published connections of shard `s` (`connections[s]`). -/
+def Pool.bucket (p : Pool K) (s : Nat) : List Nat := p.conns.filter fun i => (p.net i).shard == s
+
+/-- `Vec::swap_remove(idx)`: the last element takes the place of the removed one. -/
+def swapRemove (l : List Nat) (idx : Nat) : List Nat :=
+  match l.getLast? with
+  | none => []
+  | some last => (l.set idx last).dropLast
+
+/-- The `while !shards_to_try.is_empty()` loop of `connection_for_shard_helper`: iteration `k` draws
+`ρ k = (index into shards_to_try, index into the bucket)`. `none` = the `unreachable!`. -/
+def Pool.tryShards (p : Pool K) (ρ : Nat → Nat × Nat) : Nat → Nat → List Nat → Option Nat
+  | 0, _, _ => none
+  | fuel + 1, k, toTry =>
+    if toTry.isEmpty then none
+    else
+      let idx := (ρ k).1 % toTry.length
+      let shard := toTry.getD idx 0
+      match chooseFrom (p.bucket shard) (ρ k).2 with
+      | some c => some c
+      | none => p.tryShards ρ fuel (k + 1) (swapRemove toTry idx)
+
+/-- `NodeConnectionPool::connection_for_shard(shard)`: `none` = `Err(Initializing | Broken)` (or the panic). -/
+def Pool.connectionForShard (p : Pool K) (shard r : Nat) (ρ : Nat → Nat × Nat) : Option Nat :=
+  if p.conns.isEmpty then none
+  else match p.sharder with
+    | none => chooseFrom p.conns r
+    | some n =>
+      -- `shard_conns.get(shard)`: out of bounds = no preferred bucket
+      match (if shard < n then chooseFrom (p.bucket shard) r else none) with
+      | some c => some c
+      | none => p.tryShards ρ n 0 (List.range n)
+
+/-- `NodeConnectionPool::random_connection()`: a random shard first (`rs % nr_shards`). -/
+def Pool.randomConnection (p : Pool K) (rs r : Nat) (ρ : Nat → Nat × Nat) : Option Nat :=
+  match p.sharder with
+  | none => p.connectionForShard 0 r ρ
+  | some n => p.connectionForShard (rs % n) r ρ
+
+/-- The connections a request for `shard` can be handed: the shard's own bucket when it has a connection,
+otherwise any published connection. -/
+def Pool.handable (p : Pool K) (shard : Nat) : List Nat :=
+  match p.sharder with
+  | none => p.conns
+  | some n => if shard < n && !(p.bucket shard).isEmpty then p.bucket shard else p.conns
+
 /-! ## 4. The cluster worker -/
 
 /-- One spawned `handle_use_keyspace_request`. -/
